@@ -684,4 +684,260 @@ theorem frame_end_rejected (x : UInt8)
       bind, Except.bind, majArray]
   by_cases h : rest.length < 8 <;> simp [h]
 
+/-! ### "Exactly the received bytes of that block": what the parser consumed -/
+
+theorem decHead_suffix (bs rest : Bytes) (m n : Nat) (h : decHead bs = .ok (m, n, rest)) : rest <:+ bs := by
+  cases bs with
+  | nil => simp [decHead] at h
+  | cons b t =>
+    simp only [decHead] at h
+    split at h
+    · cases h
+    · split at h
+      · cases h
+      · split at h
+        · cases h; exact List.suffix_cons _ _
+        · split at h
+          · split at h
+            · cases h
+            · cases h; exact (List.drop_suffix _ _).trans (List.suffix_cons _ _)
+          · cases h
+
+theorem decExpect_suffix (maj : Nat) (bs rest : Bytes) (n : Nat) (h : decExpect maj bs = .ok (n, rest)) :
+    rest <:+ bs := by
+  unfold decExpect at h
+  split at h
+  · cases h
+  · next m n' r hd =>
+    split at h
+    · cases h; exact decHead_suffix bs _ _ _ hd
+    · cases h
+
+theorem decBytes_suffix (bs v rest : Bytes) (h : decBytes bs = .ok (v, rest)) : rest <:+ bs := by
+  unfold decBytes at h
+  split at h
+  · cases h
+  · next n r hd =>
+    unfold readRaw at h
+    split at h
+    · cases h
+    · split at h
+      · cases h
+      · cases h; exact (List.drop_suffix _ r).trans (decExpect_suffix _ bs r n hd)
+
+theorem uintU_suffix (bs rest : Bytes) (n : Nat) (h : uintU bs = .ok (n, rest)) : rest <:+ bs := by
+  unfold uintU at h
+  split at h
+  · cases h
+  · next r hd => cases h; exact decExpect_suffix _ bs _ _ hd
+
+theorem consumed_append (h b : Bytes) : consumed (h ++ b) b = h := by
+  simp [consumed]
+
+theorem consumed_of_suffix (a b : Bytes) (h : b <:+ a) : consumed a b ++ b = a := by
+  obtain ⟨p, rfl⟩ := h
+  rw [consumed_append]
+
+theorem canonicalPre_ok (bs r0 r : Bytes) (n t : Nat) (h : canonicalPre bs = .ok (n, t, r0, r)) :
+    decArray bs = .ok (n, r0) ∧ r <:+ r0 ∧ (n = 5 ∨ n = 6) := by
+  unfold canonicalPre at h
+  simp only [bind, Except.bind] at h
+  split at h
+  · cases h
+  · next _ p hd =>
+    split at h
+    · cases h
+    · next hn =>
+      split at h
+      · cases h
+      · next v1 h1 =>
+        split at h
+        · cases h
+        · next v2 h2 =>
+          split at h
+          · cases h
+          · next v3 h3 =>
+            split at h
+            · cases h
+            · next v4 h4 =>
+              split at h
+              · cases h
+              · next d r' h5 =>
+                cases h
+                refine ⟨hd, ?_, by omega⟩
+                have s1 := uintU_suffix _ _ _ (show uintU p.snd = .ok (v1.fst, v1.snd) from h1)
+                have s2 := uintU_suffix _ _ _ (show uintU v1.snd = .ok (v2.fst, v2.snd) from h2)
+                have s3 := uintU_suffix _ _ _ (show uintU v2.snd = .ok (v3.fst, v3.snd) from h3)
+                have s4 := uintU_suffix _ _ _ (show uintU v3.snd = .ok (v4.fst, v4.snd) from h4)
+                have s5 := decBytes_suffix _ _ _ h5
+                exact s5.trans (s4.trans (s3.trans (s2.trans s1)))
+
+/-- Parser-level `accept_iff_crc` for a canonical block whose array head and CRC item head are in
+shortest form: accepted iff the last `crcLen t` bytes of exactly the bytes the parser consumed for
+this block are the CRC of those bytes with the field zeroed. -/
+theorem canonical_accept_iff_crc (t : Nat) (ht : t = 1 ∨ t = 2) (bs r0 r v x : Bytes)
+    (hpre : canonicalPre bs = .ok (6, t, r0, r))
+    (hhead : consumed bs r0 = encArray 6)
+    (hitem : r = encBytes v ++ x) (hv : v.length = crcLen t) :
+    parseCanonical bs = .ok x ↔ BlockCrcOk t (consumed bs x) := by
+  subst hitem
+  obtain ⟨hd, hs, _⟩ := canonicalPre_ok bs r0 _ 6 t hpre
+  have hs0 : r0 <:+ bs := decExpect_suffix _ bs r0 6 hd
+  have e0 := consumed_of_suffix bs r0 hs0
+  have e1 := consumed_of_suffix r0 _ hs
+  rw [hhead] at e0
+  generalize hcdef : consumed r0 (encBytes v ++ x) = cc at *
+  have hbs : bs = (encArray 6 ++ cc ++ encBytes v) ++ x := by
+    rw [← e0, ← e1]; simp [List.append_assoc]
+  have hcons : consumed bs x = encArray 6 ++ cc ++ encBytes v := by
+    rw [hbs, consumed_append]
+  rw [hcons, ← accept_iff_crc t ht (encArray 6 ++ cc) v x hv]
+  have hl : crcLen t ≤ 4 := by rcases crcLen_cases t ht with ⟨_, h, _⟩ | ⟨_, h, _⟩ <;> omega
+  obtain ⟨c, hc⟩ := crcField_isSome t ht ((encArray 6 ++ cc) ++ encBytes (zeros (crcLen t)))
+  have hcalc : crcCalc t (encArray 6 ++ cc) = some c := by rw [crcCalc_eq t ht, hc]
+  have hchk := checkField_encBytes (encArray 6 ++ cc) t v x c (by unfold maxInt32; omega) hcalc
+  unfold parseCanonical parseCanonicalWith
+  rw [hpre]
+  simp only [↓reduceIte, canonicalBuf, hcdef]
+  have hchk' : checkFieldWith crcCalc (encArray 6 ++ cc) t (encBytes v ++ x) =
+      if c = v then .ok (v, x) else .error .crc := hchk
+  rw [hchk', hchk]
+  by_cases hcv : c = v <;> simp [hcv]
+
+theorem skip_suffix (fuel : Nat) :
+    (∀ bs r, skipItem fuel bs = some r → r <:+ bs) ∧
+    (∀ n bs r, skipItems fuel n bs = some r → r <:+ bs) := by
+  induction fuel with
+  | zero => exact ⟨fun bs r h => by simp [skipItem] at h, fun n bs r h => by simp [skipItems] at h⟩
+  | succ fuel ih =>
+    constructor
+    · intro bs r h
+      simp only [skipItem] at h
+      split at h
+      · cases h
+      · next maj n rest hd =>
+        have hs := decHead_suffix bs rest maj n hd
+        split at h
+        · split at h
+          · cases h
+          · cases h; exact (List.drop_suffix _ _).trans hs
+        · split at h
+          · split at h
+            · cases h
+            · exact (ih.2 _ _ _ h).trans hs
+          · split at h
+            · split at h
+              · cases h
+              · exact (ih.2 _ _ _ h).trans hs
+            · split at h
+              · exact (ih.1 _ _ h).trans hs
+              · cases h; exact hs
+    · intro n bs r h
+      cases n with
+      | zero => simp only [skipItems] at h; cases h; exact List.suffix_refl _
+      | succ n =>
+        simp only [skipItems] at h
+        split at h
+        · cases h
+        · next rest hr => exact (ih.2 _ _ _ h).trans (ih.1 _ _ hr)
+
+theorem skipE_suffix (bs r : Bytes) (h : skipE bs = .ok r) : r <:+ bs := by
+  unfold skipE at h
+  split at h
+  · cases h
+  · next r' hr => cases h; exact (skip_suffix _).1 _ _ hr
+
+theorem uintE_suffix (bs rest : Bytes) (n : Nat) (h : uintE bs = .ok (n, rest)) : rest <:+ bs := by
+  unfold uintE at h
+  split at h
+  · cases h
+  · next r hd => cases h; exact decExpect_suffix _ bs _ _ hd
+
+theorem primaryPre_ok (bs r : Bytes) (n t : Nat) (h : primaryPre bs = .ok (n, t, r)) : r <:+ bs := by
+  unfold primaryPre at h
+  simp only [bind, Except.bind] at h
+  split at h
+  · cases h
+  · next _ p hd =>
+    have s0 : p.snd <:+ bs := decExpect_suffix _ bs p.snd p.fst hd
+    split at h
+    · cases h
+    · split at h
+      · cases h
+      · next v1 h1 =>
+        have s1 := uintE_suffix _ _ _ (show uintE p.snd = .ok (v1.fst, v1.snd) from h1)
+        split at h
+        · cases h
+        · split at h
+          · cases h
+          · next v2 h2 =>
+            have s2 := uintE_suffix _ _ _ (show uintE v1.snd = .ok (v2.fst, v2.snd) from h2)
+            split at h
+            · cases h
+            · next v3 h3 =>
+              have s3 := uintE_suffix _ _ _ (show uintE v2.snd = .ok (v3.fst, v3.snd) from h3)
+              split at h
+              · cases h
+              · next k1 g1 =>
+                have t1 := skipE_suffix _ _ g1
+                split at h
+                · cases h
+                · next k2 g2 =>
+                  have t2 := skipE_suffix _ _ g2
+                  split at h
+                  · cases h
+                  · next k3 g3 =>
+                    have t3 := skipE_suffix _ _ g3
+                    split at h
+                    · cases h
+                    · next k4 g4 =>
+                      have t4 := skipE_suffix _ _ g4
+                      split at h
+                      · cases h
+                      · next v5 h5 =>
+                        have s5 := uintE_suffix _ _ _ (show uintE k4 = .ok (v5.fst, v5.snd) from h5)
+                        have base : v5.snd <:+ bs :=
+                          s5.trans (t4.trans (t3.trans (t2.trans (t1.trans (s3.trans (s2.trans (s1.trans s0)))))))
+                        split at h
+                        · cases h
+                        · next v6 h6 =>
+                          cases h
+                          split at h6
+                          · split at h6
+                            · cases h6
+                            · next w1 q1 =>
+                              split at h6
+                              · cases h6
+                              · next w2 q2 =>
+                                cases h6
+                                have u1 := uintE_suffix _ _ _ (show uintE v5.snd = .ok (w1.fst, w1.snd) from q1)
+                                have u2 := uintE_suffix _ _ _ (show uintE w1.snd = .ok (w2.fst, w2.snd) from q2)
+                                exact u2.trans (u1.trans base)
+                          · cases h6; exact base
+
+/-- Parser-level `accept_iff_crc` for the primary block (everything from the array head on is tee'd as
+received, so only the CRC item head has to be in shortest form). -/
+theorem primary_accept_iff_crc (t : Nat) (ht : t = 1 ∨ t = 2) (bs r v x : Bytes) (n : Nat)
+    (hn : n = 9 ∨ n = 11) (hpre : primaryPre bs = .ok (n, t, r))
+    (hitem : r = encBytes v ++ x) (hv : v.length = crcLen t) :
+    parsePrimary bs = .ok x ↔ BlockCrcOk t (consumed bs x) := by
+  subst hitem
+  have hs := primaryPre_ok bs _ n t hpre
+  have e1 := consumed_of_suffix bs _ hs
+  generalize hcdef : consumed bs (encBytes v ++ x) = cc at *
+  have hbs : bs = (cc ++ encBytes v) ++ x := by rw [← e1]; simp [List.append_assoc]
+  have hcons : consumed bs x = cc ++ encBytes v := by rw [hbs, consumed_append]
+  rw [hcons, ← accept_iff_crc t ht cc v x hv]
+  have hl : crcLen t ≤ 4 := by rcases crcLen_cases t ht with ⟨_, h, _⟩ | ⟨_, h, _⟩ <;> omega
+  obtain ⟨c, hc⟩ := crcField_isSome t ht (cc ++ encBytes (zeros (crcLen t)))
+  have hcalc : crcCalc t cc = some c := by rw [crcCalc_eq t ht, hc]
+  have hchk := checkField_encBytes cc t v x c (by unfold maxInt32; omega) hcalc
+  unfold parsePrimary parsePrimaryWith
+  rw [hpre]
+  simp only [hn, ↓reduceIte, hcdef]
+  have hchk' : checkFieldWith crcCalc cc t (encBytes v ++ x) =
+      if c = v then .ok (v, x) else .error .crc := hchk
+  rw [hchk', hchk]
+  by_cases hcv : c = v <;> simp [hcv]
+
 end Dtn7.Crc.Lemmas
